@@ -90,6 +90,7 @@ def run(ctx):
     ctx.do(rule_changed_flag)
     ctx.do(rule_flag_returned)
     ctx.do(rule_lexicographic_chains)
+    ctx.do(rule_distribution_recurses)
     ctx.do(rule_distinct_bindings)
     from .pitfalls import rule_groupby_sorted, rule_single_use_iterators
     ctx.do(rule_groupby_sorted, "C09.iterator-pitfalls", ("stix2.equivalence.pattern",))
@@ -586,6 +587,43 @@ def rule_same_decider(ctx):
     run.check(ok, R, key(ff.module.relpath, ff.qualname, "yields-exactly-equivalents"), "the search does not yield exactly the members "
               "that compare equal", file=ff.module.relpath, line=ff.node.lineno, function=ff.qualname,
               expected="for p in patterns: if cmp(...) == 0: yield p", found=short(ff.node, 200))
+
+
+def rule_distribution_recurses(ctx):
+    """Distributing AND / FOLLOWEDBY over OR creates NEW and/followedby nodes out of operands taken from different OR groups;
+    such a node can itself have an OR operand (`[a] AND ([b] OR ([c] FOLLOWEDBY ([d] OR [e])))`), which no earlier, bottom-up
+    pass has seen in that position.  The observation-level DNF step therefore transforms each node it creates again before
+    it puts them under the resulting OR; without that, nested patterns are no longer recognised as equivalent to their
+    distributed forms (a documented rewrite)."""
+    run = ctx.run
+    prog = ctx.prog
+    R = "C09.changed-accumulates"
+    from ..cfg import ReachingDefs, cfg_of
+    cls = prog.cls("stix2.equivalence.pattern.transform.observation::DNFTransformer")
+    fi = next((m for n_, m in cls.methods.items() if n_.endswith("__transform")), None)
+    if fi is None:
+        raise AnalysisError("anchor missing: observation DNFTransformer.__transform")
+    g = cfg_of(fi)
+    rd = ReachingDefs(g, fi.all_param_names())
+    mk = [c for c in body_walk(fi.node) if isinstance(c, ast.Call) and call_simple_name(c) == "OrObservationExpression" and c.args]
+    if not mk:
+        raise AnalysisError("observation DNFTransformer: the resulting OR is not built here any more (rule out of date)")
+    for c in mk:
+        st_ = c
+        while not isinstance(st_, ast.stmt):
+            st_ = st_.parent
+        arg = c.args[0]
+        vals = [arg]
+        if isinstance(arg, ast.Name):
+            vals = [v for _d, v in rd.reaching(g.node_of(st_), arg.id)]
+        ok = bool(vals) and all(isinstance(v, ast.AST) and any(
+            isinstance(x, ast.Call) and isinstance(x.func, ast.Attribute) and x.func.attr == "transform" and norm(x.func.value) == "self"
+            for x in ast.walk(v)) for v in vals)
+        run.check(ok, R, key(fi.module.relpath, fi.qualname, "new-nodes-transformed-again"),
+                  "the and / followedby nodes created by the distribution are put under the resulting OR without being transformed "
+                  "again: an OR operand inside them stays undistributed, so nested patterns are not brought to the normal form",
+                  file=fi.module.relpath, line=c.lineno, function=fi.qualname,
+                  expected="[self.transform(child)[0] for child in <new nodes>]", found=[short(v, 80) if isinstance(v, ast.AST) else str(v) for v in vals])
 
 
 def rule_lexicographic_chains(ctx):
